@@ -144,3 +144,11 @@ Proof.
     + exists [], (data_frame false (fill 40 9)). repeat split; repeat constructor.
   - vm_compute. repeat split.
 Qed.
+
+(* ---- the physical byte ceiling of a batch (config().sndbatch_bytes_physical = calculate_required_slot_size, options.rs:854;
+   Model/EngineCfg.v, regenerated from the source on every run): whatever the sizes, a batch of at most SNDBATCH_COUNT
+   single-frame messages whose payloads stay within SNDBATCH_BYTES fits, framed, under the ceiling - so the logical
+   limits never admit a batch that the physical limit must then cut (page = sysconf(_SC_PAGESIZE) > 0) ---- *)
+From RZ Require Import Model.Options Model.EngineCfg Proofs.EngineCfgProofs.
+Theorem C01_physical_ceiling_admits_logical_batch : forall (page target count : N) (sizes : list N), 0 < page -> N.of_nat (length sizes) <= count -> sum sizes <= target -> sum (map framed sizes) <= slot_size page target count.
+Proof. exact slot_holds_batch. Qed.
